@@ -460,5 +460,11 @@ def run_task(name, fn, settings=None, timeout_ms=60000, both=False, min_return_p
         out.vcs.append(r)
         if r.status != "valid":
             n_bad += 1
+    if out.status == "error" and (out.message or "").startswith("vacuous"):
+        # no path completed because every path left the integer/index model (a no-wrap / index side condition fails
+        # and the path is cut there): nothing is proved and nothing is refuted - the body is outside the subset
+        lim = [v for v in out.vcs if v.status != "valid" and re.search(r"/safety:(no-wrap|shift-count-in-model|index-non-negative|positive-divisor|non-negative-exponent|non-negative-repeat)", v.name)]
+        if lim:
+            out.status, out.message = "unsupported", "UNSUPPORTED every path leaves the integer/index model at %s (%s)" % (lim[0].where, lim[0].name)
     out.seconds = time.time() - t0
     return out
